@@ -10,7 +10,7 @@ import json, os, traceback
 HERE = os.path.dirname(os.path.abspath(__file__))
 CACHE = os.path.join(os.path.dirname(HERE), "lean", "TbotVerif", "Generated", "params_cache.json")
 MODULES = ("tcextract", "sshextract", "logextract", "quote_params", "ctxextract", "shellextract", "ubootextract",
-           "filesextract", "envextract", "runextract", "boardextract")
+           "filesextract", "envextract", "runextract", "boardextract", "subioextract")
 
 
 def _load_cache():
